@@ -36,30 +36,29 @@ func (tm *Timer) Now() time.Time {
 }
 
 func (tm *Timer) MoveForward(d time.Duration) {
-	events := func() []event {
-		tm.lock.Lock()
-		defer tm.lock.Unlock()
-		tm.now = tm.now.Add(d)
-		ret := make([]event, len(tm.events))
-		copy(ret, tm.events)
-		return ret
-	}()
+	tm.lock.Lock()
+	tm.now = tm.now.Add(d)
+	tm.lock.Unlock()
 
-	// Run events
-	for i, e := range events {
-		if e.f != nil {
-			if e.t.Before(tm.now) {
-				e.f()
-				events[i].f = nil
-			}
+	// Run due events one at a time against the live table. (Running a snapshot and writing it
+	// back afterwards would drop every event scheduled, and undo every cancel made, by the
+	// callbacks themselves, e.g. an Interest re-expressed when its timeout fires.)
+	for i := 0; ; i++ {
+		var f func()
+		tm.lock.Lock()
+		if i >= len(tm.events) {
+			tm.lock.Unlock()
+			break
+		}
+		if e := tm.events[i]; e.f != nil && e.t.Before(tm.now) {
+			f = e.f
+			tm.events[i].f = nil
+		}
+		tm.lock.Unlock()
+		if f != nil {
+			f()
 		}
 	}
-
-	func() {
-		tm.lock.Lock()
-		defer tm.lock.Unlock()
-		tm.events = events
-	}()
 }
 
 func (tm *Timer) Schedule(d time.Duration, f func()) func() error {
